@@ -218,7 +218,14 @@ def _lnobj_expr(ctx) -> Optional[str]:
         if isinstance(n, ast.BinOp) and isinstance(n.op, ast.Add) and isinstance(n.left, ast.Constant) and n.left.value == b"#LNOBJ ":
             e = n.right
             if isinstance(e, ast.IfExp):
-                e = e.orelse
+                # encode-unless-bytes, either polarity: the branch that is not the encode call is the value itself
+                plain = [b for b in (e.body, e.orelse) if not (isinstance(b, ast.Call) and call_name(b) == "encode")]
+                e = plain[0] if len(plain) == 1 else e.orelse
+            if isinstance(e, ast.Call) and call_name(e) == "encode":
+                if isinstance(e.func, ast.Attribute) and not (isinstance(e.func.value, ast.Name) and e.func.value.id == "codecs"):
+                    e = e.func.value          # value.encode(...)
+                elif e.args:
+                    e = e.args[0]             # encode(value, ...)
             if isinstance(e, ast.Name):
                 ds = [x.value for x in walk_no_nested(hdr.node) if isinstance(x, ast.Assign) and len(x.targets) == 1 and
                       isinstance(x.targets[0], ast.Name) and x.targets[0].id == e.id]
